@@ -26,7 +26,7 @@ TAUS = [0.05, 0.2, 0.5, 0.8]
 def cases(seed, tier):
     rng = rng_for(seed, 'C09')
     out = []
-    seeds = 2 if tier == 'quick' else 12
+    seeds = 2 if tier == 'quick' else 30
     n = 4000 if tier == 'quick' else 10000
     for fam in biv.FAMILIES:
         taus = list(TAUS) + ([-t for t in TAUS] if fam == 'frank' else [])
